@@ -353,6 +353,8 @@ def check_interleaving(case: dict) -> Verdict:
         for i, t in enumerate(case["tasks"]):
             if admitted.get(i) is False and i in ops_run:
                 out.append(("C07:operation-invoked-while-open", f"task {i} was rejected but its operation ran"))
+            elif i not in admitted and i in ops_run:
+                out.append(("C07:operation-invoked-without-admission", f"task {i} ({t}) ran its operation without ever asking the breaker for admission; log {log}"))
     finally:
         bootstrap.set_clock(None)
         for c in list(locals().get("coros", {}).values()):
